@@ -164,17 +164,21 @@ TraceSpec == TraceInit /\ [][TraceNext]_tvars
 -----------------------------------------------------------------------------
 (* acceptance bookkeeping: register 1 = accepted trace ids, register 2 = longest matched prefix (diagnosis),
    registers 3.. = how often each branch of the tree was taken in accepted steps (coverage of the binding) *)
+Branches == {"none", "start", "build", "reflect", "expand", "contract-out", "contract-in", "shrink"}
 ASSUME TLCSet(1, {})
 ASSUME TLCSet(2, [i \in 1..Len(Traces) |-> 0])
+ASSUME TLCSet(3, [b \in Branches |-> 0])
 
 Accept ==
   /\ (l = Len(T.ev) + 1) => TLCSet(1, TLCGet(1) \cup {tid})
   /\ Diagnose => (TLCGet(2)[tid] < l => TLCSet(2, [TLCGet(2) EXCEPT ![tid] = l]))
+  /\ (phase # "done" /\ br \in Branches) => TLCSet(3, [TLCGet(3) EXCEPT ![br] = @ + 1])
 
 AllAccepted ==
   /\ PrintT(<<"@@", ToJson([accepted |-> Cardinality(TLCGet(1)), total |-> Len(Traces),
                             rejected |-> (1..Len(Traces)) \ TLCGet(1),
-                            prefix |-> IF Diagnose THEN TLCGet(2) ELSE << >>])>>)
+                            prefix |-> IF Diagnose THEN TLCGet(2) ELSE << >>,
+                            counts |-> TLCGet(3)])>>)
   /\ TRUE
 
 (* the design properties of NM.tla, on the recorded states *)
